@@ -218,6 +218,21 @@ func c20(c *Ctx) {
 		}
 	}
 	r.Floor("R20.2/multireader", n2b, 1)
+	// (c) no child is opened while the stream is assembled except the one containing the offset: the rest is loaded in
+	// link order as the MultiReader reaches it (decided by C05's R5.4 on the same function)
+	{
+		saved := c.R
+		tmp := core.NewReport("tmp", "")
+		c.R = tmp
+		c.checkSkipBeforeOpen(reach, fetch)
+		c.R = saved
+		for _, o := range tmp.Obls {
+			if !strings.HasSuffix(o.Key, "/skip-before-open") {
+				continue
+			}
+			r.Check(o.Status == core.Discharged, "R20.2", strings.Replace(o.Key, "/skip-before-open", "/children-stay-deferred", 1), o.Pos, "only the child containing the offset is opened while the stream is assembled; later children load as the MultiReader reaches them", "children are opened while the stream is assembled (breadth-first requests): "+o.Detail)
+		}
+	}
 
 	// ---- R20.3
 	n3 := 0
